@@ -118,7 +118,7 @@ def ctor_names(pattern):
 # construction routes
 
 STATIC_ROUTES = ('from_labels', 'from_labels-gen', 'from_tree', 'from_product', 'from_index_items', 'from_labels_delimited', 'iloc-selection', 'iloc-bool-selection',
-                 'level_add', 'rehierarch', 'from_type_blocks', 'set_index_hierarchy', 'go-to-static', 'loc-hloc-selection', 'sort-of-shuffled', 'union-of-halves')
+                 'level_add', 'rehierarch', 'from_type_blocks', 'set_index_hierarchy', 'go-to-static', 'loc-hloc-selection', 'sort-of-shuffled', 'union-of-halves', 'level_drop-outer', 'level_drop-outer-cached', 'level_drop-inner', 'level_drop-inner-cached')
 
 
 def super_rows(rows, pattern):
@@ -198,6 +198,24 @@ def build(route, rows, pattern, go=False):
             return cls(sf.IndexHierarchyGO.from_labels(list(rows), **(dict(index_constructors=ctor_objs(names, True)) if names else {})))
         g.append(rows[-1])
         return cls(g)
+    if route in ('level_drop-inner', 'level_drop-inner-cached'):
+        # every row of `rows` gets leaves below it (ragged: 2, 1, 3, 2, 1, 3 ...); dropping the leaf depth gives `rows`, each once
+        deep = [tuple(r) + (k,) for i, r in enumerate(rows) for k in range((2, 1, 3)[i % 3])]
+        icd = (list(ic) + [sf.IndexGO if go else sf.Index]) if ic else None
+        base = cls.from_labels(deep, **(dict(index_constructors=icd) if icd else {}))
+        if route.endswith('cached'):
+            base.values
+        return base.level_drop(-1)
+    if route in ('level_drop-outer', 'level_drop-outer-cached'):
+        # `rows` under two extra outer parents (the first half of the first-depth groups under one, the rest under the other); dropping the outer depth gives `rows`
+        firsts = list(dict.fromkeys(norm(r[0]) for r in rows))
+        half = (len(firsts) + 1) // 2
+        deep = [(('P0' if firsts.index(norm(r[0])) < half else 'P1'),) + tuple(r) for r in rows]
+        icd = ([sf.IndexGO if go else sf.Index] + list(ic)) if ic else None
+        base = cls.from_labels(deep, **(dict(index_constructors=icd) if icd else {}))
+        if route.endswith('cached'):
+            base.values      # the label table is realised before the drop (the drop then slices it instead of rebuilding)
+        return base.level_drop(1)
     if route == 'sort-of-shuffled':
         srt = sorted(rows)
         shuffled = order_as_tree(srt[::-1])
@@ -250,6 +268,10 @@ def route_applies(route, rows, pattern):
         return not any(c in 'DM' for c in pattern)
     if route == 'level_add':
         return depth >= 3 and len({norm(r[0]) for r in rows}) == 1
+    if route in ('level_drop-inner', 'level_drop-inner-cached'):
+        return depth <= 3
+    if route in ('level_drop-outer', 'level_drop-outer-cached'):
+        return len({norm(r[0]) for r in rows}) >= 2 and depth <= 3
     if route in ('sort-of-shuffled', 'union-of-halves'):
         return True
     return True
@@ -841,7 +863,7 @@ class Rep(Report):
 
 
 RULE = ('ragged label trees of depth 2-4 generated from nested fan-out shapes (fan-out <= 3), inner labels repeated under different parents (and rotated per parent), '
-        'per-depth label types str/int/datetime (IndexDate levels) in unsorted label order; every tree x every applicable construction route (16 static routes, '
+        'per-depth label types str/int/datetime (IndexDate levels) in unsorted label order; every tree x every applicable construction route (20 static routes, '
         'grow-only append/extend histories of <= 4 operations x {no cache read, read before, read between}); all views compared with the tuple list; '
         'every combination of per-depth selectors (label / list in reverse order / list with an absent member / label slice / open slices / all / innermost Boolean masks; truncated keys) '
         'compared with the reference selection, and Series / Frame rows / Frame columns under the same key. '
